@@ -193,10 +193,18 @@ class Flattener:
             if callee is not None and depth < self.max_depth and self._inlinable(name, callee):
                 cenv = {}
                 reas = self._reassigned(callee)
+                same = set()
                 for p, a in zip(cir.params(callee), cir.args(n)):
                     v = self.ceval(a, env)
                     if v is not None and p.get("n") not in reas:
                         cenv[p.get("n")] = v
+                    if cir.text(a) == p.get("n") and p.get("n") not in reas:
+                        same.add(p.get("n"))
+                # facts about memory reached through a pointer that is handed on under the same name stay valid in the callee
+                # (e.g. m->opt.integrator bound by the caller of the pipeline)
+                for k_, v_ in env.items():
+                    if "->" in k_ and k_.split("->", 1)[0] in same:
+                        cenv.setdefault(k_, v_)
                 cur = getattr(self, "_cur", None)
                 if cur is not None:
                     cur.append(reas)
